@@ -173,7 +173,9 @@ static void* worker(void* a_) {
     if (setjmp(jb) == 0) { p = mj_stackAllocByte(a->d, size, al); kind = p ? 2 : 1; }
     else { kind = 3; p = NULL; }
     jb_armed = 0;
-    a->old[i] = faa_old; a->alloc[i] = faa_val; a->kind[i] = faa_count == 1 ? kind : 9;
+    // exactly one fetch-add per call; none only when the request is rejected before reserving (old = SIZE_MAX then)
+    a->old[i] = faa_count ? faa_old : (size_t)-1; a->alloc[i] = faa_count ? faa_val : 0;
+    a->kind[i] = (faa_count == 1 || (faa_count == 0 && kind == 3)) ? kind : 9;
     a->ptr[i] = (uintptr_t)p;
     if (kind == 2 && inside(a->d, p, size)) memset(p, (unsigned char)(1 + a->tid), size);
   }
@@ -237,11 +239,52 @@ static int run_seq(void* a_) { seqarg* a = a_; return sequential(a->narena, a->o
 typedef struct { int nth, nper; unsigned long long narena, off, parena0, seed, maxsize; } conarg;
 static int run_con(void* a_) { conarg* a = a_; return concurrent(a->nth, a->nper, a->narena, a->off, a->parena0, a->seed, a->maxsize); }
 
+// sequential scenarios are run in batches of up to BATCH per child process (forking is slow on a loaded
+// machine); a batch whose process died is re-run one scenario per process
+#define BATCH 64
+typedef struct { seqarg* v; int n; } batcharg;
+static int run_batch(void* a_) {
+  batcharg* b = a_;
+  for (int i = 0; i < b->n; i++) { int rc = run_seq(&b->v[i]); if (rc) return rc; }
+  return 0;
+}
+static int in_child_quiet(int (*fn)(void*), void* arg, int* died) {
+  // like in_child, but prints nothing when the child died
+  fflush(stdout);
+  pid_t pid = fork();
+  if (pid < 0) return 2;
+  if (pid == 0) {
+    char* buf = NULL; size_t len = 0;
+    vout = open_memstream(&buf, &len);
+    int rc = fn(arg);
+    fclose(vout);
+    size_t done = 0;
+    while (done < len) { ssize_t w = write(1, buf + done, len - done); if (w <= 0) _exit(4); done += (size_t)w; }
+    _exit(rc);
+  }
+  int status = 0;
+  waitpid(pid, &status, 0);
+  *died = WIFSIGNALED(status);
+  return *died ? 0 : WEXITSTATUS(status);
+}
+static int flush_batch(seqarg* v, int* n) {
+  int rc = 0;
+  if (*n > 0) {
+    batcharg b = { v, *n }; int died = 0;
+    rc = in_child_quiet(run_batch, &b, &died);
+    if (died) { for (int i = 0; i < *n && !rc; i++) rc = in_child(run_seq, &v[i]); }
+    for (int i = 0; i < *n; i++) free(v[i].ol);
+    *n = 0;
+  }
+  return rc;
+}
+
 int main(void) {
   mju_user_error = on_error;
   char c[8];
+  static seqarg pend[BATCH]; int npend = 0;
   while (scanf("%7s", c) == 1) {
-    int rc;
+    int rc = 0;
     if (c[0] == 'S') {
       seqarg a;
       if (scanf("%llu %llu %llu %llu %d", &a.narena, &a.off, &a.parena0, &a.pstack0, &a.nops) != 5) return 2;
@@ -253,14 +296,16 @@ int main(void) {
         if (op[0] == 'A' || op[0] == 'R') { if (scanf("%llu %llu", &a.ol[i].x, &a.ol[i].y) != 2) return 2; }
         if (op[0] == 'N' || op[0] == 'I' || op[0] == 'L') { if (scanf("%llu", &a.ol[i].x) != 1) return 2; }
       }
-      rc = in_child(run_seq, &a);
-      free(a.ol);
+      pend[npend++] = a;
+      if (npend == BATCH) rc = flush_batch(pend, &npend);
     } else if (c[0] == 'T') {
+      rc = flush_batch(pend, &npend);
+      if (rc) return rc;
       conarg a;
       if (scanf("%d %d %llu %llu %llu %llu %llu", &a.nth, &a.nper, &a.narena, &a.off, &a.parena0, &a.seed, &a.maxsize) != 7) return 2;
       rc = in_child(run_con, &a);
     } else return 2;
     if (rc) return rc;
   }
-  return 0;
+  return flush_batch(pend, &npend);
 }
